@@ -54,12 +54,14 @@ def monDR (c a : List String) : String :=
   | _, _ => "bad: unparsable observation"
 
 def runMon (f : List String) : String :=
-  -- f = "mon" :: case fields ++ ["##"] ++ answer fields
-  let body := f.drop 1
+  -- f = "mon" :: PID :: case fields ++ ["##"] ++ answer fields
+  let pid := (f.drop 1).headD ""
+  let body := f.drop 2
   let c := body.takeWhile (· != "##")
   let a := (body.dropWhile (· != "##")).drop 1
   match c.head? with
   | some "dr" => monDR c a
+  | some "conv" => Conv.monitor pid c a
   | _ => "ok"
 
 def runCase (line : String) : String :=
